@@ -509,6 +509,14 @@ Qed.
 From Coq Require Import String.
 From Gluon Require Import Gen.FactsFlush Model.FlushPolicy.
 
+(* the UID form of a command is answered by the same handler flushes as the sequence-number form (the harness sends both
+   forms and the model runs one command for either) *)
+Definition uid_twins : list string := ["Fetch"; "Store"; "Search"; "Copy"; "Move"].
+Lemma uid_forms_flush_alike :
+  map (handler_permits true) uid_twins = map (handler_permits false) uid_twins /\
+  forallb (fun c => match handler_permits true c with Some _ => true | None => false end) uid_twins = true.
+Proof. split; vm_compute; reflexivity. Qed.
+
 Lemma restricted_permits_false : restricted_ok = true.
 Proof. vm_compute. reflexivity. Qed.
 
